@@ -23,6 +23,9 @@ type c14Plan struct {
 	EOFCostMs    int      `json:"eof_cost_ms"`
 	Async        bool     `json:"async,omitempty"`
 	ReadSize     int      `json:"read_size,omitempty"` // every transport read returns at most this many bytes (0 = all)
+	// QueueSize of the channel's package queue (0 = 100): with 1 or 2 the reader is usually parked on the full
+	// queue when the failure arrives.
+	QueueSize int `json:"queue_size,omitempty"`
 	// write failures: request of ReqLen body bytes, the J-th transport write accepts Accept bytes and fails
 	ReqLen int `json:"req_len,omitempty"`
 	J      int `json:"j,omitempty"`
@@ -121,6 +124,9 @@ func (c14) Gen(r *Rand, idx int, tier string) interface{} {
 			if idx%5 == 2 {
 				p.ReadSize = []int{1, 3, 8, 9}[(idx/5)%4]
 			}
+			if idx%4 == 3 {
+				p.QueueSize = 1 + (idx/4)%2
+			}
 			return p
 		}
 		i -= n
@@ -197,7 +203,7 @@ func (c14) Run(plan interface{}, schedSeed uint64, replay []simrt.Choice, lenien
 		return c14RunTransient(p, v, cfg, base, pk, wire, drain)
 	}
 	got := runResp(cfg, respDelivery{Packets: pk, TermAt: p.K, TermKind: term, TermWithData: withData, Async: p.Async},
-		respClient{QueueSize: 100, ReadTimeoutS: p.ReadTimeoutS, DrainFor: drain, ReadSizes: c14ReadSizes(p.ReadSize, len(wire)), MaxErrs: 10})
+		respClient{QueueSize: c14Queue(p), ReadTimeoutS: p.ReadTimeoutS, DrainFor: drain, ReadSizes: c14ReadSizes(p.ReadSize, len(wire)), MaxErrs: 10})
 	out := got.Out
 	StdOutcome(v, base.Out)
 	StdOutcome(v, out)
@@ -316,7 +322,7 @@ func (c14) Run(plan interface{}, schedSeed uint64, replay []simrt.Choice, lenien
 			cfg2 := cfg
 			cfg2.Replay, cfg2.Lenient, cfg2.KeepLog = out.Tape, false, true
 			again := runResp(cfg2, respDelivery{Packets: pk, TermAt: p.K, TermKind: term, TermWithData: withData, Async: p.Async},
-				respClient{QueueSize: 100, ReadTimeoutS: p.ReadTimeoutS, DrainFor: drain, ReadSizes: c14ReadSizes(p.ReadSize, len(wire)), MaxErrs: 10})
+				respClient{QueueSize: c14Queue(p), ReadTimeoutS: p.ReadTimeoutS, DrainFor: drain, ReadSizes: c14ReadSizes(p.ReadSize, len(wire)), MaxErrs: 10})
 			pkgSends, errSend := 0, -1
 			for _, e := range again.Out.Log {
 				if e.Op != "send" && !(e.Op == "select" && strings.Contains(e.Info, "(send)")) {
@@ -461,7 +467,7 @@ func pktLens(pk [][]byte) []int {
 // up (a prefix, then errors) or recover (the whole response); it may not deliver anything the server did not send.
 func c14RunTransient(p *c14Plan, v *Verdict, cfg simrt.Config, base *respResult, pk [][]byte, wire []byte, drain time.Duration) (*Verdict, *simrt.Outcome) {
 	got := runResp(cfg, respDelivery{Packets: pk, TermAt: -1, Async: p.Async},
-		respClient{QueueSize: 100, ReadTimeoutS: p.ReadTimeoutS, DrainFor: drain, ReadSizes: c14ReadSizes(p.ReadSize, len(wire)), MaxErrs: 10, Transients: []int{p.K}})
+		respClient{QueueSize: c14Queue(p), ReadTimeoutS: p.ReadTimeoutS, DrainFor: drain, ReadSizes: c14ReadSizes(p.ReadSize, len(wire)), MaxErrs: 10, Transients: []int{p.K}})
 	out := got.Out
 	StdOutcome(v, base.Out)
 	StdOutcome(v, out)
@@ -503,6 +509,13 @@ func c14RunTransient(p *c14Plan, v *Verdict, cfg simrt.Config, base *respResult,
 	}
 	v.Sample = map[string]interface{}{"kind": p.Kind, "k": p.K, "wire": len(wire), "delivered": len(have), "errors": len(errsOnly(got.Recs))}
 	return v, out
+}
+
+func c14Queue(p *c14Plan) int {
+	if p.QueueSize > 0 {
+		return p.QueueSize
+	}
+	return 100
 }
 
 func c14RunWrite(p *c14Plan, schedSeed uint64, replay []simrt.Choice, lenient, keepLog bool) (*Verdict, *simrt.Outcome) {
